@@ -38,8 +38,8 @@ def main(tier):
     for f in glob.glob(work + '/trace*.ndjson'): os.remove(f)
     total = points = 0
     samples = []
-    ntree = {'D3': 24, 'T3': 16} if tier == 'quick' else {'D3': 120, 'T3': 100, 'T4': 60}
-    maxk = 60 if tier == 'quick' else 150
+    ntree = {'D3': 24, 'T3': 16} if tier == 'quick' else {'D3': 60, 'T3': 50, 'T4': 30}
+    maxk = 60 if tier == 'quick' else 100
     for fam, n in ntree.items():
         behs, r = progfam.generate('Expr_%s.cfg' % fam, module='Expr', timeout=900)
         pick = rnd.sample(behs, min(n, len(behs)))
